@@ -6,7 +6,7 @@ import gen
 PRE_KINDS = ["pre_detach", "pre_attach", "pre_detach_children", "pre_attach_children"]
 POST_KINDS = ["post_detach", "post_attach", "post_detach_children", "post_attach_children"]
 ALL_KINDS = PRE_KINDS + POST_KINDS
-NM_CLASSES = ["mixin", "node", "anynode", "symlink", "eqmixin", "falsynode", "lenany"]
+NM_CLASSES = ["mixin", "node", "anynode", "symlink", "eqmixin", "falsynode", "lenany", "falsymixin"]
 
 
 # ----------------------------------------------------------------------------------------------
@@ -117,7 +117,7 @@ def random_history(rng, k, length, nonnode=True):
     return ops
 
 
-LIGHT_CLASSES = ["light", "lighteq"]
+LIGHT_CLASSES = ["light", "lighteq", "lightfalsy"]
 
 
 def mk(fl, asrt, n0, ops, cls=None, mixed=None):
@@ -125,7 +125,7 @@ def mk(fl, asrt, n0, ops, cls=None, mixed=None):
     if fl == "light" and not cls and not mixed:
         # the LightNodeMixin flavour, too, comes as a plain class and as one with value equality (all nodes equal);
         # the choice is a function of the history, so that a case is reproducible from its JSON alone
-        cls = LIGHT_CLASSES[1] if (len(repr(ops)) + n0) % 5 < 2 else LIGHT_CLASSES[0]
+        cls = LIGHT_CLASSES[{0: 1, 1: 1, 2: 2}.get((len(repr(ops)) + n0) % 6, 0)]
     if cls:
         c["cls"] = cls
     if mixed:
